@@ -9,6 +9,7 @@
 import OptreeModel.Model.Ops
 import OptreeModel.Properties.C07
 import OptreeModel.Lemmas.UpToAlign
+import OptreeModel.Lemmas.UpToSelf
 
 namespace Optree
 
@@ -159,5 +160,11 @@ theorem C05_rest_aligned (cfg : Cfg) (hp : cfg.pred = Option.none) (t r : PyObj)
   intro i p x h1 h2
   have := hal.get i p x h1 h2
   simpa [Reaches] using this
+
+/-- the first tree matched against its own treespec contributes its own leaves: `tree_map(f, t, t)` calls
+`f(leaf_i, leaf_i)` -/
+theorem C05_self_rest (cfg : Cfg) (hp : cfg.pred = Option.none) (t : PyObj) (ht : t.wf = true)
+    (ls : List PyObj) (sp : Spec) (h : flatten cfg t = .ok (ls, sp)) (hns : sp.ns = cfg.ns) :
+    flattenUpTo cfg.reg sp t = .ok ls := flattenUpTo_self cfg hp t ht ls sp h hns
 
 end Optree
